@@ -590,6 +590,60 @@ func runTCPCase(t *testing.T, method string, capab int) (sx, sx) {
 	return L(sxInt(12), sxInt(int64(methodCode(method))), sxInt(int64(capab))), out
 }
 
+// ---- kind 22: which TCP method each run of a whole request is handed -----------------------
+
+// runMethodPropagationCase runs Traceroute.RunTraceroute with q traceroute queries and n end-to-end probes and records,
+// through the per-run seam, the (protocol, method, MinTTL == MaxTTL) every run was started with.
+func runMethodPropagationCase(t *testing.T, proto, method string, q, n int) (sx, sx) {
+	var out sx
+	synctest.Test(t, func(t *testing.T) {
+		var mu sync.Mutex
+		var reg, e2e []int64
+		restore := traceroute.VerifSetRunOnce(func(ctx context.Context, p traceroute.TracerouteParams, dport int) (*result.TracerouteRun, error) {
+			time.Sleep(time.Duration(1+len(p.TCPMethod)) * time.Millisecond)
+			mu.Lock()
+			if p.MinTTL == p.MaxTTL {
+				e2e = append(e2e, int64(methodCode(string(p.TCPMethod))))
+			} else {
+				reg = append(reg, int64(methodCode(string(p.TCPMethod))))
+			}
+			mu.Unlock()
+			ip := net.IPv4(127, 0, 0, 1)
+			return &result.TracerouteRun{Source: result.TracerouteSource{IPAddress: ip, Port: 40000}, Destination: result.TracerouteDestination{IPAddress: ip, Port: uint16(dport)},
+				Hops: []*result.TracerouteHop{{TTL: p.MaxTTL, IPAddress: ip, RTT: 0.5, IsDest: true}}}, nil
+		})
+		defer restore()
+		tr := traceroute.VerifNewTraceroute(nullFetcher{})
+		p := traceroute.TracerouteParams{Hostname: "127.0.0.1", Port: 443, Protocol: proto, MinTTL: 1, MaxTTL: 5, Delay: 1, Timeout: 300 * time.Millisecond,
+			TCPMethod: traceroute.TCPMethod(method), TracerouteQueries: q, E2eQueries: n}
+		status := 0
+		func() {
+			defer func() {
+				if r := recover(); r != nil {
+					status = 2
+				}
+			}()
+			if _, err := tr.RunTraceroute(context.Background(), p); err != nil {
+				status = 1
+			}
+		}()
+		synctest.Wait()
+		mu.Lock()
+		sort.Slice(reg, func(i, j int) bool { return reg[i] < reg[j] })
+		sort.Slice(e2e, func(i, j int) bool { return e2e[i] < e2e[j] })
+		rs, es := sxList{}, sxList{}
+		for _, v := range reg {
+			rs = append(rs, sxInt(v))
+		}
+		for _, v := range e2e {
+			es = append(es, sxInt(v))
+		}
+		mu.Unlock()
+		out = L(sxInt(int64(status)), rs, es)
+	})
+	return L(sxInt(22), sxInt(int64(protoCode(proto))), sxInt(int64(methodCode(method))), sxInt(int64(q)), sxInt(int64(n))), out
+}
+
 func labPar(e labEnv) {
 	r := newRng(e.seed)
 	w, err := newCaseWriter(filepath.Join(e.out, "par.cases"))
@@ -678,6 +732,20 @@ func labPar(e labEnv) {
 				in, out := runTCPCase(e.t, m, capab)
 				w.put(in, out)
 				tags[fmt.Sprintf("tcp_run:%s:cap%d", m, capab)]++
+			}
+		}
+	}
+	// kind 22: every method x protocol x 1..3 traceroute queries x 0..3 end-to-end probes, as whole requests
+	for k := 0; k < reps; k++ {
+		for _, proto := range []string{"tcp", "udp"} {
+			for _, m := range []string{"", "syn", "sack", "prefer_sack", "syn_socket"} {
+				for q := 1; q <= 3; q++ {
+					for n := 0; n <= 3; n++ {
+						in, out := runMethodPropagationCase(e.t, proto, m, q, n)
+						w.put(in, out)
+						tags["request_methods:"+proto+":"+m]++
+					}
+				}
 			}
 		}
 	}
